@@ -976,7 +976,7 @@ class Interp:
             raise Unsupported('conditional expression of non-scalar values inside an invariant')
         tv = self.eval(node.test, frame)
         tt = truth_term(self.ctx, tv)
-        if not isinstance(tt, bool) and _pure_simple(node.body) and _pure_simple(node.orelse):
+        if not isinstance(tt, bool) and self.reg.bounds.get('merge_ifexp') and _pure_simple(node.body) and _pure_simple(node.orelse):
             # `a if c else b` over plain integer operands: an if-then-else term instead of a path split
             try:
                 a, b = self.eval(node.body, frame), self.eval(node.orelse, frame)
